@@ -580,6 +580,7 @@ func supervise(spec *Spec, tier string) {
 	// merge
 	total := workerResult{Classes: map[string]int64{}, Metrics: map[string]int64{}}
 	hashes := map[uint64]struct{}{}
+	sampleSeen := map[string]struct{}{}
 	allExhaustive := true
 	var inconclusive []string
 	vmap := map[string]*Violation{}
@@ -614,8 +615,12 @@ func supervise(spec *Spec, tier string) {
 					total.Metrics[k] += v
 				}
 			}
-			if len(total.Samples) < 12 {
-				total.Samples = append(total.Samples, res.Samples...)
+			for _, sm := range res.Samples {
+				sb, _ := json.Marshal(sm)
+				if _, dup := sampleSeen[string(sb)]; !dup && len(total.Samples) < 12 {
+					sampleSeen[string(sb)] = struct{}{}
+					total.Samples = append(total.Samples, sm)
+				}
 			}
 			total.Notes = append(total.Notes, res.Notes...)
 			for _, v := range res.Violations {
@@ -669,6 +674,9 @@ func supervise(spec *Spec, tier string) {
 			continue
 		}
 		nViol++
+		if nViol > 25 {
+			continue // counted, not printed / saved
+		}
 		path := saveReplay(spec.ID, v)
 		lines = append(lines, fmt.Sprintf("VIOLATION property=%s replay=%s", spec.ID, path))
 		lines = append(lines, fmt.Sprintf("  sig=%s count=%d what=%s", v.Sig, v.Count, oneLine(v.What)))
@@ -728,6 +736,9 @@ func supervise(spec *Spec, tier string) {
 
 	for _, l := range lines {
 		fmt.Println(l)
+	}
+	if nViol > 25 {
+		fmt.Printf("(%d further distinct violation signatures not listed)\n", nViol-25)
 	}
 	fmt.Printf("%s %s tier=%s seed=%d: verdict=%s evaluations=%d distinct=%d classes=%d violations=%d known=%d races=%d wall=%.1fs\n",
 		spec.ID, spec.Level, tier, envSeed(), verdict, total.Evals, distinct, len(total.Classes), nViol, nKnown, raceDedup, time.Since(start).Seconds())
